@@ -6,6 +6,7 @@ Extracts, on every run,
      (`if let Some(L) = self.limits.size_limit {`), every occurrence of that variable with its syntactic form:
         sizeGt      `usize::from(stats.size) > L`
         sizePlusGt  `usize::from(stat.size) + n > L`
+        sizeSatPlusGt  `usize::from(stat.size).saturating_add(n) > L`
         other       anything else (fail closed: `limit_uses_monotone` then no longer checks)
  (b) every write to the accounted total (`….size += / -= / =` on the runtime stats), classified as the add in
      `allocate`, the roll-back in `allocate`, the subtraction in `deallocate`, or `other`;
@@ -33,7 +34,7 @@ ALLOCATE_RE = re.compile(
 DEALLOCATE_TXT = ("fn deallocate(&self, size: AllocatedMemory) { if !size.is_zero() { self.stats.borrow_mut().size -= size } }")
 CAN_ALLOCATE_TXT = ("fn can_allocate_by(&self, f: impl Fn() -> Option<usize>) -> RuntimeResult<()> { "
                     "if let Some(size_limit) = self.limits.size_limit { if let Some(size) = f() { let stat = self.stats.borrow(); "
-                    "if usize::from(stat.size) + size > size_limit { return Err(RuntimeViolation::AllocationLimitReached); } } } Ok(()) }")
+                    "if usize::from(stat.size).saturating_add(size) > size_limit { return Err(RuntimeViolation::AllocationLimitReached); } } } Ok(()) }")
 DROP_TXT = "fn drop(&mut self) { self.runtime.deallocate(self.size); }"
 NEW_TXT = ("fn new(value: XValue<W, R, T>, runtime: RTCell<W, R, T>) -> RuntimeResult<Rc<Self>> { let size = runtime.allocate(&value)?; "
            "Ok(Rc::new(Self { runtime, size, value, })) }")
@@ -86,6 +87,8 @@ def scan():
                     form = ("sizeGt",)
                 elif re.fullmatch(r"if usize::from\(stats?\.size\) \+ \w+ >", lhs) and tail.startswith("{"):
                     form = ("sizePlusGt",)
+                elif re.fullmatch(r"if usize::from\(stats?\.size\)\.saturating_add\(\w+\) >", lhs) and tail.startswith("{"):
+                    form = ("sizeSatPlusGt",)
                 else:
                     form = ("other", (lhs + " " + var + " " + tail)[:80])
                 uses.append((rel, line_of(src, o), fn_of(o), form))
